@@ -190,7 +190,7 @@ func c17Direct(r *report.R, n *vn.Node, id string) {
 	default:
 		g = rng.Uint64()
 	}
-	ctx := n.Ctx().WithBlockHeight(int64(rng.Intn(1000)+5)).WithConsensusParams(&tmproto.ConsensusParams{Block: &tmproto.BlockParams{MaxGas: maxGas, MaxBytes: 200000}})
+	ctx := n.Ctx().WithBlockHeight(int64(rng.Intn(1000) + 5)).WithConsensusParams(&tmproto.ConsensusParams{Block: &tmproto.BlockParams{MaxGas: maxGas, MaxBytes: 200000}})
 	fk := n.App.FeeMarketKeeper
 	vn.Must(fk.SetParams(ctx, p))
 	call := func(g uint64) *big.Int {
